@@ -512,8 +512,10 @@ func (s *seqRunner) apply(op string) OpResult {
 		for _, rc := range r.refreshChans {
 			select {
 			case v := <-rc.ch:
-				_ = v
 				s.counters["refresh-results"]++
+				if msg := refreshResultWrong(r, v.Key, v.Value, v.Err); msg != "" {
+					s.fail("refresh-result-wrong", "Refresh", "%q reports {key %d, value %d, err %v}: %s", rc.op, v.Key, v.Value, v.Err, msg)
+				}
 				select {
 				case <-rc.ch:
 					s.fail("refresh-channel", "Refresh", "%q delivered a second result on its channel", rc.op)
@@ -534,6 +536,10 @@ func (s *seqRunner) apply(op string) OpResult {
 				got := map[int]int{}
 				for _, rr := range v {
 					got[rr.Key]++
+					// each result carries exactly what a loader produced for that key: a value it returned, or nothing
+					if msg := refreshResultWrong(r, rr.Key, rr.Value, rr.Err); msg != "" {
+						s.fail("refresh-result-wrong", "BulkRefresh", "%q reports {key %d, value %d, err %v}: %s", rc.op, rr.Key, rr.Value, rr.Err, msg)
+					}
 				}
 				for kk := range want {
 					if got[kk] != 1 {
@@ -744,6 +750,27 @@ func hash128(s string) [2]uint64 {
 		h2 ^= h2 >> 29
 	}
 	return [2]uint64{h1, h2}
+}
+
+// refreshResultWrong judges one RefreshResult without guessing which loader call it belongs to: a successful result
+// carries a value some loader call returned for that key; a failed one carries the value the failing loader returned
+// alongside its error, i.e. nothing (zero) unless a loader returned a value together with its error.
+func refreshResultWrong(r *Rig, key, value int, err error) string {
+	produced := false
+	for _, lc := range r.Loads {
+		if v, ok := lc.Out[key]; ok && v == value {
+			if (err == nil) == (lc.Err == "") {
+				produced = true
+			}
+		}
+	}
+	switch {
+	case err == nil && !produced:
+		return "no loader call returned that value for the key"
+	case err != nil && value != 0 && !produced:
+		return "a failed or not-found load has no value to report"
+	}
+	return ""
 }
 
 // ---- BFS driver ----
